@@ -396,7 +396,32 @@ fn run_cfg(c: &Cfg, idx: usize) -> R {
             first_reject_code = code;
         }
     }
-    let class = format!("{:?}:{:?}:{}", c.level, c.liquidator, if boundary == 0 { format!("never:{}", crate::svm::err_name(code1)) } else if boundary == coll { "whole_collateral".into() } else { format!("bounded:{}", crate::svm::err_name(first_reject_code)) });
+    // the same liquidation with the liquidator's own token account offered in the place of the debt bank's
+    // insurance vault / liquidity vault: if it commits, the 2.5 % did not go to the bank's insurance
+    let mut swap_class = "";
+    if boundary >= 1 {
+        let amt = (boundary / 2).max(1);
+        for kind in [1u8, 0u8] {
+            let mut t = b.s.clone();
+            let base = Action::Liquidate { liquidator: 1, liquidatee: 0, asset: 0, liab: 1, amt };
+            let r = act::apply(w, &mut t, &Action::WithVaultSwap { base: Box::new(base), bank: 1, kind });
+            execs += 1;
+            if r.committed {
+                swap_class = ":VAULT_SWAP_ACCEPTED";
+                let which = if kind == 1 { "insurance vault" } else { "liquidity vault" };
+                let (n0, n1) = (rf::bank_nums(&b.s, &w.banks[1]), rf::bank_nums(&t, &w.banks[1]));
+                found.push(Found {
+                    clause: "C05.split_insurance_vault".into(),
+                    sig: format!("{}:vault_swap:{which}", sig(c)),
+                    detail: format!("a liquidation of {amt} naming the liquidator's own token account as the debt bank's {which} succeeded: the bank's insurance vault went {} -> {}, its liquidity vault {} -> {}", n0.ins_vault, n1.ins_vault, n0.vault, n1.vault),
+                    replay: json!({"model": "C05", "cfg": c, "amount": amt, "vault_swap": kind}),
+                });
+            } else if swap_class.is_empty() {
+                swap_class = ":vault_swap_refused";
+            }
+        }
+    }
+    let class = format!("{:?}:{:?}:{}{swap_class}", c.level, c.liquidator, if boundary == 0 { format!("never:{}", crate::svm::err_name(code1)) } else if boundary == coll { "whole_collateral".into() } else { format!("bounded:{}", crate::svm::err_name(first_reject_code)) });
     R { class, found, execs }
 }
 
@@ -467,7 +492,7 @@ pub fn run(tier: Tier) -> Outcome {
     o.coverage = json!({
         "evaluations": execs,
         "distinct_nontrivial": liquidated,
-        "rule": "complete product of (asset/debt mint decimals and token program) x liquidatee health level (steered by bisecting the debt oracle price on the reference: one tick above zero, one tick below, -10 %, x3, positive-unless-biased) x liquidator portfolio (large / small deposit in the debt bank, only other collateral, a debt in the asset bank) x maintenance weights x collateral confidence; per configuration the seize amount is bisected through the real instruction and 1,2,3, boundary+-2, collateral+-1, fractions and an over-size amount are executed; every success is judged against the exact reference (eligibility, improvement, non-positivity, no flips, liquidator health, 95/97.5/2.5 split incl. whole/fractional insurance parts); distinct_nontrivial = configurations with at least one successful liquidation",
+        "rule": "complete product of (asset/debt mint decimals and token program) x liquidatee health level (steered by bisecting the debt oracle price on the reference: one tick above zero, one tick below, -10 %, x3, positive-unless-biased) x liquidator portfolio (large / small deposit in the debt bank, only other collateral, a debt in the asset bank) x maintenance weights x collateral confidence; per configuration the seize amount is bisected through the real instruction and 1,2,3, boundary+-2, collateral+-1, fractions and an over-size amount are executed; every success is judged against the exact reference (eligibility, improvement, non-positivity, no flips, liquidator health, 95/97.5/2.5 split incl. whole/fractional insurance parts); per liquidatable configuration the same call with the liquidator's own token account in the place of the debt bank's insurance / liquidity vault must be refused; distinct_nontrivial = configurations with at least one successful liquidation",
         "configurations": cfgs.len(),
         "exhaustive": true,
         "outcome_classes": classes,
